@@ -37,6 +37,10 @@ CHECKS = {
   "Seeded histories made only of link operations (every list mutator with present, absent, duplicate, no-op and out-of-range arguments, list and scalar link assignments, equal/self assignments, object creation+linking, self_delete of referenced and unreferenced objects, attempts to create a second System over shared objects) checked after every operation against a plain-Python link model: exception parity with the built-in list, return values, list contents, reverse look-ups (containers, jobs of servers/storages/services, steps/patterns/networks of jobs, patterns of journeys/networks/countries, systems of every object), attachment of the live list.",
   "Arguments are always modeling objects of the class the list accepts (wrong classes are C14's subject); sort/reverse and slice assignment/deletion are not generated (DESIGN 2.3); an exception thrown from inside an update_<attr> function ends the run without a verdict (recomputation faults are C15's subject).",
   "deterministic simulation: seeded link-operation histories vs plain-Python link model"),
+"C18": ("exploration", "3.C18",
+  "Schedule exploration: after a seeded edit history (interleaved with read-side requests: explain, str/repr, to_json with calculated data, summed-over-period views, plotly and matplotlib plots, calculus and object-relationship graph exports) the scheduler issues explicit recomputation requests - compute_calculated_attributes() on a drawn subset of the objects in canonical, reverse, random or repeated order, and system.after_init() - one at a time. After every single request and every read, every calculated value must be physically equal to its value before and every input must keep its physical value (units may change).",
+  "Judged only on a model that agrees with a rebuilt reference (attribution); explicit recomputation requests are issued at the tail of a run, never followed by edits (the statement quantifies over requests after an edit history); a read that raises is counted, not reported (robustness is outside the statement), but what it changed before raising is judged.",
+  "deterministic simulation: seeded scheduler over explicit recomputation and read requests; before/after snapshots"),
 }
 PENDING = ["C05","C07","C08","C13","C14","C15","C16","C18","C19"]
 for pid in PENDING:
